@@ -345,7 +345,7 @@ theorem consoleHead_spec (orc : Orc) (h : H) (j : CJob) (owned : List Nat) (ho :
     · rw [e]; rfl
     · exact hs _ (s1 ▸ e)
   unfold consoleHead headLine
-  simp only [sliceGet, slicePut, setMem, Code.real, if_true]
+  simp only [sliceGet, slicePut, setMem, columnsFrom, Code.real, if_true]
   generalize (bufGet orc h).1 = line at *
   generalize (bufGet orc h).2 = h1 at *
   generalize takeAt SliceObj.fresh h1.slicePool (orc h1.tick) = g at *
@@ -428,6 +428,29 @@ theorem consoleCtx_spec (orc : Orc) (h : H) (line : Nat) (p : Parent) (j : CJob)
     simp only [setMem, upd_same]
     rw [fr line (by simp)]
 
+theorem consoleCtxPanic_spec (orc : Orc) (h : H) (p : Parent) (fields : List RO) (owned : List Nat)
+    (ho : Owns h owned) (hj : ∀ o ∈ h.jsonPool, o.PutInv) (hf : h.fault = false) :
+    Owns (consoleCtxPanic Code.real orc h p fields) owned ∧
+    (∀ i ∈ owned, (consoleCtxPanic Code.real orc h p fields).mem i = h.mem i) ∧
+    (∀ o ∈ (consoleCtxPanic Code.real orc h p fields).jsonPool, o.PutInv) ∧
+    SameObj h (consoleCtxPanic Code.real orc h p fields) ∧ (consoleCtxPanic Code.real orc h p fields).fault = false := by
+  obtain ⟨b, hs0, sp0, n0, m0, run⟩ := clone_run orc h p owned ho hj hf
+  obtain ⟨e1, mb, nb⟩ := cloneBody_spec orc p fields hs0 sp0 n0 m0
+  obtain ⟨hb, o7, fr, js, so, nf⟩ := run _ e1
+  unfold consoleCtxPanic
+  simp only [hb, Option.getD_some]
+  generalize cloneBody orc (cfgCheck (clone Code.real orc h p) p) p fields = s2 at *
+  have o5 := owns_bufFree s2.h b _ _ o7
+  obtain ⟨o8, mem8, jp8, so8, f8⟩ := owns_putJson (bufFree s2.h b) s2.o owned o5
+  refine ⟨o8, ?_, ?_, so.trans ((SameObj.rfl' _).trans so8), by rw [f8]; exact nf⟩
+  · intro i hi'; rw [mem8]; exact fr i hi'
+  · intro o ho'
+    rw [jp8] at ho'
+    simp only [List.mem_cons] at ho'
+    rcases ho' with rfl | ho'
+    · exact ⟨rfl, rfl⟩
+    · exact js o ho'
+
 theorem consoleTail_spec (h : H) (line : Nat) (j : CJob) :
     (consoleTail h line j).mem line = (match j.stack with | some st => h.mem line ++ 10 :: st | none => h.mem line) ++ j.ending ∧
     (∀ i, i ≠ line → (consoleTail h line j).mem i = h.mem i) ∧
@@ -488,6 +511,28 @@ theorem step_encConsole (orc : Orc) (h : H) (ps : PS) (p : Parent) (j : CJob) (h
     · show List.map hF.mem hF.live = _
       rw [s7, a11, map_frame (fun i hi' => frame i (by simp [hi'])), r2]
 
+theorem step_ctxPanic (orc : Orc) (h : H) (ps : PS) (p : Parent) (j : CJob) (hi : Inv h) (hr : Rel h ps) :
+    StepOK orc h ps (.ctxPanic p j) := by
+  obtain ⟨a1, a2, a3, a4, a5, a6, a7, a8, a9, a10, a11, a12, a13⟩ :=
+    consoleHead_spec orc h j (h.inflight ++ h.live) hi.owns hi.slice
+  generalize (consoleHead Code.real orc h j).1 = line at *
+  generalize hh3 : (consoleHead Code.real orc h j).2 = h3 at *
+  obtain ⟨b1, b3, b4, b5, b6⟩ := consoleCtxPanic_spec orc h3 p j.fields (h.inflight ++ h.live)
+    (owns_drop (l1 := [line]) a1) (a4 ▸ hi.json) (a13.trans hi.nofault)
+  unfold StepOK
+  simp only [step, pstep, hh3]
+  generalize consoleCtxPanic Code.real orc h3 p j.fields = h5 at *
+  obtain ⟨s1, s2, s3, s4, s5, s6, s7, s8⟩ := b5
+  obtain ⟨r1, r2, r3⟩ := hr
+  constructor
+  · refine ⟨b4, by rw [s1]; exact a5, by rw [s5, a9]; exact hi.stack, fun _ _ => trivial, fun _ _ => trivial,
+      fun _ _ => trivial, ?_, b6⟩
+    simp only [s6, s7, a10, a11]
+    exact b1
+  · refine ⟨?_, ?_, by rw [s8, a12, r3]⟩
+    · rw [s6, a10, map_frame (fun i hi' => (b3 i (by simp [hi'])).trans (a3 i (by simp [hi']))), r1]
+    · rw [s7, a11, map_frame (fun i hi' => (b3 i (by simp [hi'])).trans (a3 i (by simp [hi']))), r2]
+
 theorem step_ok (orc : Orc) (h : H) (ps : PS) (op : Op) (hi : Inv h) (hr : Rel h ps) : StepOK orc h ps op := by
   cases op with
   | encJson p j => exact step_encJson orc h ps p j hi hr
@@ -499,6 +544,7 @@ theorem step_ok (orc : Orc) (h : H) (ps : PS) (op : Op) (hi : Inv h) (hr : Rel h
   | errElem z e => exact step_errElem orc h ps z e hi hr
   | capture a f => exact step_capture orc h ps a f hi hr
   | scratch s => exact step_scratch orc h ps s hi hr
+  | ctxPanic p j => exact step_ctxPanic orc h ps p j hi hr
   | gc k => exact step_gc orc h ps k hi hr
 
 theorem run_ok (orc : Orc) : ∀ (ops : List Op) (h : H) (ps : PS), Inv h → Rel h ps →
